@@ -90,7 +90,6 @@ func coverageEngine(args []string) error {
 		for i, r := range c.Runs {
 			cov := core.NewTestCoverage()
 			label := core.BuildLabel{PackageName: "p", Name: fmt.Sprintf("t%d", i+1)}
-			perTest := map[string][]core.LineCoverage{}
 			names := []string{}
 			for f := range r {
 				names = append(names, f)
@@ -99,10 +98,10 @@ func coverageEngine(args []string) error {
 			for _, f := range names {
 				if r[f].Present {
 					cov.Files[f] = toLines(r[f].Lines)
-					perTest[f] = toLines(r[f].Lines)
 				}
 			}
-			cov.Tests[label] = perTest
+			// as the real parsers do (src/test/{go,xml,istanbul}_coverage.go): the per-test entry IS the run's file map
+			cov.Tests[label] = cov.Files
 			runs[i] = cov
 		}
 		// the accumulator starts as the zero value, as in doFlakeRun / the results aggregation of plz
@@ -127,8 +126,17 @@ func coverageEngine(args []string) error {
 				}
 			}
 		}
+		// the per-test entries of the aggregate (Coverage.tla PerTest): entry i must be run i's own coverage
+		perTest := make([]map[string]covFile, len(runs))
+		for i := range runs {
+			label := core.BuildLabel{PackageName: "p", Name: fmt.Sprintf("t%d", i+1)}
+			perTest[i] = map[string]covFile{}
+			for f, l := range acc.Tests[label] {
+				perTest[i][f] = covFile{Present: true, Lines: fromLines(l)}
+			}
+		}
 		o := map[string]any{"id": c.ID, "once": once, "twice": twice, "steps": steps, "inputs_intact": inputsIntact,
-			"tests": len(acc.Tests)}
+			"tests": len(acc.Tests), "pertest": perTest}
 		// direct pairwise merge of the first file of the first two runs
 		if len(c.Runs) >= 2 {
 			direct := map[string]any{}
